@@ -197,11 +197,17 @@ CLAIMED = {
         "(proved through kwLine_desc / resolved_line_source: a keyword line is the first line of a node below the call); range_contiguous_ascending, range_is_construct_span, "
         "str_line_in_parent_range (string findings carry their parent's range), excerpt_contains_line (lmin <= line < lmax for every -n incl. 0 and negatives), excerpt_bound "
         "(at most len(range)+max(n,1)-1 lines, by induction over the read loop); the verbatim/numbered clause is Props.C09.get_code_is_numbered_window. Checks decide on the position-ERASED "
-        "visit (Env.forCheck), so decisions cannot depend on line numbers in the model; the full equivariance theorem under monotone renumbering is work in progress and the shift clause is "
-        "currently decided by correspondence: every safe insertion point (between statements and inside bracketed expressions) x blank/whitespace/comment text x k in {1,3} on programs "
+        "visit with a blanked location context (Env.forCheck / Env.blind), so decisions cannot depend on line numbers in the model. EQUIVARIANCE (Props.C10.equivariant, "
+        "equivariant_findings, insert_shifts, insert_finding, insert_above_unchanged, insert_below_shifts, insert_inside_grows, nosecMoved_exists; lemmas in lean/Bandit/Proofs/Renum.lean): for ANY "
+        "strictly monotone renumbering of the lines (inserting k lines before line L is one) the traversal yields the same events — findings, nosec-withheld findings, skipped tests, crashes, same order, "
+        "test, severity, confidence, column — with every line moved along the renumbering and every range mapped as the interval between its moved end points; unbounded in tree, comments and check "
+        "list. Hypotheses: TreeWF (two CPython facts asserted by astser.check_wf on every tree), CheckCovered per check (position-blind or PosInvariant, locating relative to the node: proved in "
+        "lean/Bandit/Proofs/RelLoc.lean for the misc, shell and blacklist checks — core_checks_covered_partial; B608/B703 and the other families being added), NosecMoved (inserted lines carry no nosec "
+        "comment), FallbackOK (the absolute fallback range [0,1] of position-less nodes: nothing inserted before line 2, or no check registered for such nodes). The shift clause is additionally "
+        "decided by correspondence: every safe insertion point (between statements and inside bracketed expressions) x blank/whitespace/comment text x k in {1,3} on programs "
         "with multi-line constructs — real bandit vs the expected interval-shift image and vs the compiled Lean model; plus per-finding invariants and excerpts for -n in {0,1,2,3,5,10} "
         "against an independent reading of the file."),
-  technique="Lean 4 proof (location selectors + span well-formedness, excerpt arithmetic) + insertion-shift correspondence",
+  technique="Lean 4 proof (equivariance under monotone line renumbering, location selectors + span well-formedness, excerpt arithmetic) + insertion-shift correspondence",
   design="DESIGN.md section 7 C10"),
  "C15": dict(
   text=("Lean theorems (lean/Props/C15.lean) relating the hand-written models of B113, B324, B501-B505, B507-B509 (lean/Bandit/Plugins/Crypto.lean: evaluation order and every Python exception "
